@@ -1242,5 +1242,10 @@ func (r *Runner) Run(cfg *packages.Config, analyzers []*analysis.Analyzer, patte
 			testData: item.testData,
 		})
 	}
+	// The action graph is stored in a map. Return results in a stable order
+	// so that our callers' output doesn't depend on map iteration order.
+	sort.Slice(out, func(i, j int) bool {
+		return out[i].Package.ID < out[j].Package.ID
+	})
 	return out, nil
 }
